@@ -157,25 +157,40 @@ pub fn execute(case: &Case, opts: ExecOpts, mut instr: Box<dyn Instrument>, fata
         // in chunks, one run() per chunk appending to the same output file ----
         if let Some(cli) = case.params.get("cli").filter(|c| c.is_object()) {
             use routee_compass::app::cli::{cli_args::CliArgs, run::command_line_runner};
-            let mut text = String::new();
+            let crlf = cli["crlf"].as_bool().unwrap_or(false);
+            let eol: &[u8] = if crlf { b"\r\n" } else { b"\n" };
+            // rows that are no query at all (no response is owed for them; every real query still is)
+            let garbage: Vec<(u64, u64)> = cli["garbage"].as_array().map(|a| a.iter().filter_map(|g| Some((g[0].as_u64()?, g[1].as_u64()?))).collect()).unwrap_or_default();
+            let mut text: Vec<u8> = vec![];
+            let mut row = 0u64;
             for b in &case.batches {
                 for q in b {
-                    text.push_str(&serde_json::to_string(q).unwrap());
-                    text.push_str(if cli["crlf"].as_bool().unwrap_or(false) { "\r\n" } else { "\n" });
+                    for (_, kind) in garbage.iter().filter(|(at, _)| *at == row) {
+                        match kind {
+                            0 => text.extend_from_slice(b"this row is not JSON"),
+                            1 => text.extend_from_slice(&[b'{', b'"', b'n', b'"', b':', b'"', 0xE9, 0xFF, b'"', b'}']), // not UTF-8
+                            2 => {}                                                                       // an empty line
+                            _ => text.extend_from_slice(b"{\"_qid\": 1, \"origin_vertex\": "),                  // a truncated object
+                        }
+                        text.extend_from_slice(eol);
+                    }
+                    text.extend_from_slice(serde_json::to_string(q).unwrap().as_bytes());
+                    text.extend_from_slice(eol);
+                    row += 1;
                 }
             }
             if cli["no_final_newline"].as_bool().unwrap_or(false) {
-                while text.ends_with('\n') || text.ends_with('\r') {
+                while text.last() == Some(&b'\n') || text.last() == Some(&b'\r') {
                     text.pop();
                 }
             }
             sim::with(|s| {
                 s.put_file("/sim/config.json", serde_json::to_vec(&case.world.config(false)).unwrap());
-                s.put_file("/sim/queries.json", text.into_bytes());
+                s.put_file("/sim/queries.json", text);
             });
             let args = CliArgs { config_file: "/sim/config.json".into(), query_file: "/sim/queries.json".into(), chunksize: cli["chunksize"].as_i64(), newline_delimited: true };
             let pool = harness::make_pool(case.workers);
-            let run_cfg = case.world.run_config(case.run_parallelism);
+            let run_cfg = case.world.run_config(case.run_parallelism, usize::MAX);
             instr.before_run(0);
             sim::set_quiet(false);
             let r = catch_unwind(AssertUnwindSafe(|| pool.install(|| command_line_runner(&args, None, run_cfg.as_ref()))));
@@ -204,8 +219,8 @@ pub fn execute(case: &Case, opts: ExecOpts, mut instr: Box<dyn Instrument>, fata
             Ok(Ok(mut app)) => {
                 instr.after_build(&mut app, false);
                 let pool = harness::make_pool(case.workers);
-                let run_cfg = case.world.run_config(case.run_parallelism);
                 for (bi, b) in case.batches.iter().enumerate() {
+                    let run_cfg = case.world.run_config(case.run_parallelism, bi);
                     instr.before_run(bi);
                     sim::set_quiet(false);
                     let r = catch_unwind(AssertUnwindSafe(|| pool.install(|| app.run(b.clone(), run_cfg.as_ref()))));
